@@ -898,6 +898,8 @@ def tie_phase(ctx, batch):
                 ctx.count('tie:cache.modified-after-failed-call-depends-on-set-order'); break
             if d is not None:
                 ctx.divergence('observation after the call differs: ' + d[0], hist, model=d[1], impl=d[2]); break
+            if not m.get('guard', True):
+                ctx.divergence('the guard of theorem C13_reachable (SchemaWf, createdOk) is not met on a generated history', hist, model='guard = false'); break
             if not m.get('wf', True):
                 ctx.divergence('a reachable state does not satisfy the hypothesis WF of theorem C13 (model)', hist, model='wf = false'); break
             rw = real_wf(snap)
